@@ -297,6 +297,37 @@ def runHist (cfs : List (Uri × Member)) : SwarmState → List (Op × List Nat) 
       | none => none
       | some (st'', rs) => some (st'', r :: rs)
 
+/-! ## The caller's argument dictionary as an object that outlives the call -/
+
+/-- The dictionary object after a swarm-wide action has used it.  `_process_args_dict` builds each argument list by
+in-place list operations; Tie A regenerates WHICH objects those operations change (`Gen.procMutated`) and which of them
+belong to the caller (`Gen.procMutatedCaller`: the dictionary, one of its lists, or a name bound to them without a copy).
+When only its own fresh lists are changed the caller's dictionary is what it was; otherwise the model makes no
+statement about it (`none`). -/
+def dictAfterCall (d : ArgsDict) : Option ArgsDict :=
+  if Gen.C19.procMutatedCaller.isEmpty then some d else none
+
+inductive ActKind | parallelSafe | parallel | sequential
+  deriving DecidableEq, Repr
+
+def actOp (d : ArgsDict) (f : Uri → List Arg → Option Err) : ActKind → Op
+  | .parallelSafe => .parallelSafe d f
+  | .parallel => .parallel d f
+  | .sequential => .sequential d f
+
+/-- a history of actions (any mix of sequential / parallel / parallel_safe, any outcomes, any schedules) for which the
+caller passes ONE dictionary object: each call receives the object as the previous call left it -/
+def runActs (cfs : List (Uri × Member)) : SwarmState → ArgsDict →
+    List (ActKind × (Uri → List Arg → Option Err) × List Nat) → Option (ArgsDict × List (List Ev × Option Exc))
+  | _, d, [] => some (d, [])
+  | st, d, (k, f, sch) :: rest =>
+    match runOp cfs st (actOp d f k) sch, dictAfterCall d with
+    | some (st', tr, r), some d' =>
+      match runActs cfs st' d' rest with
+      | some (dd, outs) => some (dd, (tr, r) :: outs)
+      | none => none
+    | _, _ => none
+
 /-- a freshly constructed Swarm: `_is_open = False`, every SyncCrazyflie with `_is_link_open = False` -/
 def fresh : SwarmState := { isOpen := Gen.C19.initIsOpen, mem := fun _ => Gen.C19.scfInitIsOpen }
 
